@@ -112,7 +112,7 @@ func runObligations(fts []*FT, dir string, timeoutS int, filter func(*Obl) bool,
 	}
 	wg.Wait()
 	// stage 4 (robustness against a loaded machine): an obligation that no back end decided - neither proved nor
-	// refuted - is tried once more with three times the time, a few at a time, after everything else has finished.
+	// refuted - is tried once more with twice the time, a few at a time, after everything else has finished.
 	// Only when few are left: a change that really breaks a contract fails for good and is not worth minutes of retries.
 	var again []int
 	for i, r := range out {
@@ -120,7 +120,7 @@ func runObligations(fts []*FT, dir string, timeoutS int, filter func(*Obl) bool,
 			again = append(again, i)
 		}
 	}
-	if len(again) > 0 && len(again) <= 8 {
+	if len(again) > 0 && len(again) <= 4 {
 		sem2 := make(chan bool, 4)
 		var wg2 sync.WaitGroup
 		for _, i := range again {
@@ -130,11 +130,7 @@ func runObligations(fts []*FT, dir string, timeoutS int, filter func(*Obl) bool,
 				defer wg2.Done()
 				defer func() { <-sem2 }()
 				j := jobs[i]
-				r := Solve(j.q, dir, j.o.Name+"_retry", timeoutS*3, false)
-				if r.Status != "unsat" {
-					full := j.ft.buildQueryOpt(j.o, j.axs, false)
-					r = Solve(full, dir, j.o.Name+"_retry_full", timeoutS*3, false)
-				}
+				r := Solve(j.q, dir, j.o.Name+"_retry", timeoutS*2, false)
 				if r.Status == "unsat" {
 					for k, v := range out[i].res.All {
 						r.All["first:"+k] = v
